@@ -127,6 +127,17 @@ def correspondence(ctx):
                 anyflag = True
             exp.append(e if e != 'err' else f'err@{i + 1}')
         cases.append(f'csvfile|{work}|{enc(content)}|' + ('any' if anyflag else '[' + ' / '.join(exp) + ']'))
+    # very long lines: a reader that limits or chunks what it reads per line (4 KiB, 64 KiB, ...) splits a row in two
+    for n in sorted(set(([4097, 65537, 70000] if ctx.tier == 'quick' else [4095, 4096, 4097, 8192, 65535, 65536, 65537, 70000, 131073]) + [x + d for x in getattr(ctx, 'extra_nums', []) if 64 <= x <= 100000 for d in (-1, 0, 1)] +
+                        [x * 1024 + d for x in getattr(ctx, 'extra_nums', []) if 1 <= x <= 512 for d in (-1, 0, 1)])):
+        body = ['0020,ID_DIS or FREE_PVAL,' + 'X' * n, '0041,PVALID,after the long row', '0042,BOGUS,error row', '0043,PVALID,last']
+        content = 'Codepoint,Property,Description\n' + '\n'.join(body) + '\n'
+        exp = [expect(l + '\n') for l in body]
+        exp = [e if e != 'err' else f'err@{i + 2}' for i, e in enumerate(exp)]
+        cases.append(f'csvfile|{work}|{enc(content)}|[' + ' / '.join(exp) + ']')
+        body2 = ['0020,DISALLOWED,' + '-' * (n - 16) + 'E000,PVALID,<private-use-E000>', '0041,PVALID,x']
+        content2 = 'Codepoint,Property,Description\n' + '\n'.join(body2) + '\n'
+        cases.append(f'csvfile|{work}|{enc(content2)}|[' + ' / '.join(expect(l + '\n') for l in body2) + ']')
     res = run_cases(cases, ctx.work)
 
     def nontrivial(case, impl):
